@@ -88,14 +88,15 @@ def snakesFromIndices : List (Nat × Nat) → List Snake → List Snake
       if s.i == i && s.j == j then snakesFromIndices ps (⟨s.i, s.j, s.n + 1⟩ :: rest)
       else snakesFromIndices ps (⟨i, j, 1⟩ :: s :: rest)
 
+def dropZeroHead : List Snake → List Snake
+  | s :: rest => if s.n == 0 then rest else s :: rest
+  | [] => []
+
 def bruteforceSnakes {α β} (cmp : α → β → Except Err Bool) (A : List α) (B : List β) :
     Except Err (List Snake) := do
   let G ← compareGrid cmp A B
   let ps ← lcsIndices G A.length B.length
-  let sn := (snakesFromIndices ps [⟨0, 0, 0⟩]).reverse
-  match sn with
-  | s :: rest => pure (if s.n == 0 then rest else sn)
-  | [] => pure []
+  pure (dropZeroHead (snakesFromIndices ps [⟨0, 0, 0⟩]).reverse)
 
 structure Rect where
   i0 : Nat
@@ -111,6 +112,25 @@ def computeSnakes {α β} (cmp : α → β → Except Err Bool) (A : List α) (B
   let sn ← bruteforceSnakes cmp (slice A r.i0 r.i1) (slice B r.j0 r.j1)
   pure (sn.map (fun s => ⟨s.i + r.i0, s.j + r.j0, s.n⟩))
 
+/-- append a snake to the reversed list, merging it into the last one when it continues it -/
+def pushOrMerge (s : Snake) : List Snake → List Snake
+  | l :: rest =>
+      if l.i + l.n == s.i && l.j + l.n == s.j then (⟨l.i, l.j, l.n + s.n⟩ : Snake) :: rest
+      else s :: l :: rest
+  | [] => [s]
+
+/-- one step of the refinement loop of `compute_snakes_multilevel`; state: newsnakes reversed, i0, j0.
+    `sub` computes the snakes of the next lower level inside a rectangle. -/
+def mlStep (sub : Rect → Except Err (List Snake)) (st : List Snake × Nat × Nat) (s : Snake) :
+    Except Err (List Snake × Nat × Nat) := do
+  let (ns, i0, j0) := st
+  let ns ← if s.i > i0 && s.j > j0 then do
+      let sb ← sub (⟨i0, j0, s.i, s.j⟩ : Rect)
+      pure (sb.reverse ++ ns)
+    else pure ns
+  let ns := if s.n > 0 then pushOrMerge s ns else ns
+  pure (ns, s.i + s.n, s.j + s.n)
+
 /-- `compute_snakes_multilevel`; `cmps` in order of low-to-high precedence, `level` indexes it. -/
 def snakesML {α β} (cmps : List (α → β → Except Err Bool)) (A : List α) (B : List β) :
     Nat → Rect → Except Err (List Snake)
@@ -121,26 +141,9 @@ def snakesML {α β} (cmps : List (α → β → Except Err Bool)) (A : List α)
       let snakes ← computeSnakes cmp A B r
       match level with
       | 0 => pure snakes
-      | lvl + 1 =>
-        -- state: newsnakes reversed, i0, j0
-        let step : List Snake × Nat × Nat → Snake → Except Err (List Snake × Nat × Nat) := fun st s => do
-          let (ns, i0, j0) := st
-          let ns ← if s.i > i0 && s.j > j0 then do
-              let sub ← snakesML cmps A B lvl (⟨i0, j0, s.i, s.j⟩ : Rect)
-              pure (sub.reverse ++ ns)
-            else pure ns
-          let ns := if s.n > 0 then
-              match ns with
-              | l :: rest =>
-                  if l.i + l.n == s.i && l.j + l.n == s.j then (⟨l.i, l.j, l.n + s.n⟩ : Snake) :: rest
-                  else s :: ns
-              | [] => [s]
-            else ns
-          pure (ns, s.i + s.n, s.j + s.n)
-        let (ns, _, _) ← (snakes ++ [(⟨r.i1, r.j1, 0⟩ : Snake)]).foldlM step ([(⟨0, 0, 0⟩ : Snake)], r.i0, r.j0)
-        let out := ns.reverse
-        match out with
-        | s :: rest => pure (if s.n == 0 then rest else out)
-        | [] => pure []
+      | lvl + 1 => do
+        let (ns, _, _) ← (snakes ++ [(⟨r.i1, r.j1, 0⟩ : Snake)]).foldlM (mlStep (snakesML cmps A B lvl))
+          ([(⟨0, 0, 0⟩ : Snake)], r.i0, r.j0)
+        pure (dropZeroHead ns.reverse)
 
 end Nbdime
